@@ -427,11 +427,25 @@ impl ScalarIndex for BitmapIndex {
                     Bound::Unbounded => Bound::Unbounded,
                 };
 
-                let keys: Vec<_> = self
-                    .index_map
-                    .range((range_start, range_end))
-                    .map(|(k, _v)| k.clone())
-                    .collect();
+                // `BTreeMap::range` panics on an inverted range (e.g. `BETWEEN 5 AND 2`)
+                // and on `(Excluded(x), Excluded(x))`; both simply match nothing.
+                let is_empty_range = match (&range_start, &range_end) {
+                    (Bound::Excluded(start), Bound::Excluded(end)) => start >= end,
+                    (
+                        Bound::Included(start) | Bound::Excluded(start),
+                        Bound::Included(end) | Bound::Excluded(end),
+                    ) => start > end,
+                    _ => false,
+                };
+
+                let keys: Vec<_> = if is_empty_range {
+                    Vec::new()
+                } else {
+                    self.index_map
+                        .range((range_start, range_end))
+                        .map(|(k, _v)| k.clone())
+                        .collect()
+                };
 
                 metrics.record_comparisons(keys.len());
 
